@@ -266,3 +266,48 @@ VARIANTS += [
     V('C08', 'twin: tail literal 1024', CR, "if remaining_batch_size > 2**10:", "if remaining_batch_size > 1024:", expect='clean'),
     V('C08', 'twin: explicit ascending', TRK, "triplets = triplets.sort_values(by=['Score'])", "triplets = triplets.sort_values(by='Score', ascending=True)", expect='clean'),
 ]
+
+# ---------------------------------------------------------------- C18
+TSF = 'outrank/task_summary.py'
+VARIANTS += [
+    V('C18', 'label matched by startswith', TSF, "if label_column == feature_a.split('-')[0]:", "if feature_a.startswith(label_column):"),
+    V('C18', 'label side contributes itself', TSF, "            final_ranking.append([feature_b, score])\n", "            final_ranking.append([feature_a, score])\n"),
+    V('C18', 'second orientation dropped', TSF, "        elif label_column == feature_b.split('-')[0]:\n            final_ranking.append([feature_a, score])\n", ""),
+    V('C18', 'mean instead of median', TSF, "        .median()\n", "        .mean()\n"),
+    V('C18', 'ascending sort', TSF, "        .sort_values(by=f'Score {heuristic}', ascending=False)", "        .sort_values(by=f'Score {heuristic}', ascending=True)"),
+    V('C18', 'normalise always', TSF, "    if 'MI' in heuristic:\n        min_score", "    if True:\n        min_score"),
+    V('C18', 'normalise by max only', TSF, "(final_df[f'Score {heuristic}'] - min_score) / (max_score - min_score)", "(final_df[f'Score {heuristic}']) / (max_score)"),
+    V('C18', 'normalise before the median', TSF, "    final_df = (\n        final_df.groupby('Feature')", "    final_df[f'Score {heuristic}'] = final_df[f'Score {heuristic}'] / final_df[f'Score {heuristic}'].max()\n    final_df = (\n        final_df.groupby('Feature')"),
+    V('C18', 'interaction mean', TSF, "f'Combined score (order: {interaction_order}, {heuristic})': np.median(v),", "f'Combined score (order: {interaction_order}, {heuristic})': np.mean(v),"),
+    V('C18', 'interaction split without cardinality strip', TSF, "for el in fname.split('-')[0].split(' AND '):", "for el in fname.split(' AND '):"),
+    V('C18', 'interaction order >= 1', TSF, "    if interaction_order > 1:", "    if interaction_order >= 1:"),
+    V('C18', 'twin: normalisation with locals inlined', TSF, "        final_df[f'Score {heuristic}'] = (final_df[f'Score {heuristic}'] - min_score) / (max_score - min_score)", "        scores = final_df[f'Score {heuristic}']\n        final_df[f'Score {heuristic}'] = (scores - min_score) / (max_score - min_score)", expect='clean'),
+    V('C18', 'twin: flipped label comparison', TSF, "if label_column == feature_a.split('-')[0]:", "if feature_a.split('-')[0] == label_column:", expect='clean'),
+]
+VARIANTS += [
+    V('C18', 'twin: score column name in a local', TSF, "    final_df = pd.DataFrame(final_ranking, columns=['Feature', f'Score {heuristic}'])\n    final_df = (\n        final_df.groupby('Feature')\n        .median()\n        .reset_index()\n        .sort_values(by=f'Score {heuristic}', ascending=False)\n    )", "    score_column = f'Score {heuristic}'\n    final_df = pd.DataFrame(final_ranking, columns=['Feature', score_column])\n    final_df = (\n        final_df.groupby('Feature')\n        .median()\n        .reset_index()\n        .sort_values(by=score_column, ascending=False)\n    )", expect='clean'),
+]
+
+# ---------------------------------------------------------------- C17
+VARIANTS += [
+    V('C17', 'missing pairs skipped', IE, "            if is_redundancy:\n                values.append(redundancy_dict.get(interaction_tuple, 0))", "            if is_redundancy:\n                if interaction_tuple in redundancy_dict:\n                    values.append(redundancy_dict[interaction_tuple])"),
+    V('C17', 'None sentinel', IE, "        top_importance = -np.inf\n", "        top_importance = None\n"),
+    V('C17', 'sentinel 0', IE, "        top_importance = -np.inf\n", "        top_importance = 0\n"),
+    V('C17', 'minimise', IE, "            if importance > top_importance:", "            if importance < top_importance:"),
+    V('C17', 'sign of redundancy flipped', IE, "importance = feature_relevance - alpha * feature_redundancy + beta * feature_relation", "importance = feature_relevance + alpha * feature_redundancy + beta * feature_relation"),
+    V('C17', 'alpha/beta swapped', IE, "importance = feature_relevance - alpha * feature_redundancy + beta * feature_relation", "importance = feature_relevance - beta * feature_redundancy + alpha * feature_relation"),
+    V('C17', 'relation uses redundancy dict', IE, "            feature_relation = calc_higher_order(feat, False)", "            feature_relation = calc_higher_order(feat, True)"),
+    V('C17', 'pair key reversed', IE, "            interaction_tuple = (feat, feature)", "            interaction_tuple = (feature, feat)"),
+    V('C17', 'mean for median', IE, "return np.median(values) if strategy == 'median' else", "return np.mean(values) if strategy == 'median' else"),
+    V('C17', 'candidates include ranked', IE, "        for feat in all_features - set(ranked_features):", "        for feat in all_features:"),
+    V('C17', 'start with min relevance', IE, "most_important_feature = max(relevance_dict.items(), key=operator.itemgetter(1))[0]", "most_important_feature = min(relevance_dict.items(), key=operator.itemgetter(1))[0]"),
+    V('C17', 'ranks from 0', IE, "'3MR_Ranking': range(1, len(ranked_features) + 1)", "'3MR_Ranking': range(0, len(ranked_features))"),
+    V('C17', 'best value not updated', IE, "                top_importance = importance\n                most_important_feature = feat", "                most_important_feature = feat"),
+    V('C17', 'call site swaps dicts', TRK, "relevance_dict, redundancy_dict, relations_dict,\n        )", "relevance_dict, relations_dict, redundancy_dict,\n        )"),
+    V('C17', 'twin: >= improvement', IE, "            if importance > top_importance:", "            if importance >= top_importance:", expect='clean'),
+    V('C17', 'twin: float -inf', IE, "        top_importance = -np.inf\n", "        top_importance = float('-inf')\n", expect='clean'),
+    V('C17', 'twin: objective inlined', IE, "            feature_relevance = relevance_dict[feat]\n            importance = feature_relevance - alpha * feature_redundancy + beta * feature_relation", "            importance = relevance_dict[feat] + beta * feature_relation - alpha * feature_redundancy", expect='clean'),
+]
+VARIANTS += [
+    V('C17', 'twin: aggregation as comprehension', IE, "        values = []\n        for feat in ranked_features:\n            interaction_tuple = (feat, feature)\n            if is_redundancy:\n                values.append(redundancy_dict.get(interaction_tuple, 0))\n            else:\n                values.append(relational_dict.get(interaction_tuple, 0))\n", "        score_dict = redundancy_dict if is_redundancy else relational_dict\n        values = [score_dict.get((feat, feature), 0) for feat in ranked_features]\n", expect='clean'),
+]
